@@ -79,6 +79,9 @@ class Ctx:
         if C._PRIOR.get("last") and isinstance(replay, dict):
             what += " [the model object last fitted had a call history: fitted on unrelated data of the same structure and queried before]"
             replay = dict(replay, model_object_had_call_history=True)
+        if C._PRIOR.get("last_queried") and isinstance(replay, dict):
+            what += " [the last fit was followed by a round of queries: every accessor, with and without normalized]"
+            replay = dict(replay, fit_followed_by_queries=True)
         self.violations.append(dict(key=key, what=what, replay=C.jsonable(replay), has_input=has_input, count=1))
         return True
 
@@ -285,6 +288,8 @@ def run_check(pid, tier, seed, replay=None):
             rp_ = json.load(open(replay))
             if (rp_.get("replay") or {}).get("model_object_had_call_history") if isinstance(rp_.get("replay"), dict) else False:
                 os.environ["VERIF_PRIOR_USE_EVERY"] = "1"
+            if (rp_.get("replay") or {}).get("fit_followed_by_queries") if isinstance(rp_.get("replay"), dict) else False:
+                os.environ["VERIF_QUERY_EVERY"] = "1"      # replays: a round of queries after every fit, so that a recorded case meets it again
             mod.replay(ctx, rp_)
         else:
             mod.run(ctx)
